@@ -19,7 +19,7 @@ RULE = (
     "(widths up to 80, precisions up to 60) x floats in [-1e9, 1e9] mixed with constructed classes (negatives in (-1,0), values next to a field carry, integers, "
     "width-overflowing); 'sexa': the same value classes x %[w].{3,5,6,8,9}m; 'grammar': exhaustive enumeration of the INDI "
     "number grammar (sign?, integer | decimal | 2-3 fields with ':' ';' blank, 1-2 digit minor fields, optional fraction on the "
-    "last field) over the digit alphabet {0,1,5,9} up to length 8, crossed with 8 format classes; 'grammar-hyp': longer strings. "
+    "last field) over the digit alphabet {0,1,5,9} up to length 8, crossed with 8 format classes; 'grammar-hyp': longer strings; 'element': a driver's Number element holding a value its format cannot express publishes it, a client sends exactly that text back, the element must hold what the text denotes. "
     "Oracle: rendered text is accepted by OneNumber/DefNumber, denotes v within one resolution unit under harness/refnum.py "
     "(sign applies to the whole magnitude) and str_to_num returns v within the same tolerance; every grammar string is accepted "
     "by the validator and parsed to refnum.parse(s). Non-trivial: negative value, or within one resolution unit of a field "
@@ -265,7 +265,79 @@ def _fix_value(fmt, v):
     return v
 
 
+_ELEMENT_SEQ = [0]
+
+
+def check_element(case):
+    """Render-then-parse through a driver's Number element: the driver holds v (usually not expressible in the element's
+    format) and publishes it as text t; a client sends t back (KStars sends every member of a vector, edited or not);
+    the element must then hold the value t denotes. case: {"fmt": str, "v": float, "pad": str}"""
+    import xml.etree.ElementTree as ET
+
+    from indi import message as M
+    from indi.device import Driver, properties
+    from indi.message import one_parts
+    from indi.routing import Client, Router
+
+    fmt, v = case["fmt"], case["v"]
+    _ELEMENT_SEQ[0] += 1
+    cls = type(f"C10Drv{_ELEMENT_SEQ[0]}", (Driver,), {
+        "g": properties.Group("G", vectors={"v": properties.NumberVector("V", elements={"e": properties.Number("E", format=fmt, min=-1e12, max=1e12, step=0), "f": properties.Number("F", format="%f", min=0, max=0, step=0)})}),
+    })
+    router = Router()
+    texts = []
+
+    class Rec(Client):
+        def message_from_device(self, m):
+            if m.__class__.tag_name() == "setNumberVector":
+                root = ET.fromstring(m.to_string())
+                for c in root:
+                    if c.get("name") == "E":
+                        texts.append(c.text)
+
+    rec = Rec()
+    router.register_client(rec)
+    drv = cls(name="DEV", router=router)
+    try:
+        drv.g.v.e.value = v
+    except Exception as exc:  # noqa
+        raise Failure(f"element:assign-raises:{type(exc).__name__}", f"{case}: {exc}")
+    if not texts or texts[-1] is None:
+        return Info(nontrivial=False, labels=["nothing-published"])
+    t = texts[-1]
+    sent = case.get("pad", "") + t.strip()
+    try:
+        want = refnum.parse(sent)
+    except Exception:  # noqa - what the element publishes is judged by the other sub-checks
+        return Info(nontrivial=False, labels=["published-text-not-a-number"])
+    try:
+        router.process_message(M.NewNumberVector(device="DEV", name="V", children=(one_parts.OneNumber(name="E", value=sent),)), sender=rec)
+    except Exception as exc:  # noqa
+        raise Failure(f"element:write-raises:{type(exc).__name__}", f"{case}: sending back {sent!r}: {type(exc).__name__}: {exc}")
+    got = drv.g.v.e._value
+    try:
+        gotf = float(got)
+    except Exception:  # noqa
+        raise Failure("element:value-not-a-number-after-write", f"{case}: the element holds {got!r} after {sent!r} was written")
+    if abs(gotf - want) > 1e-9 * max(1.0, abs(want)):
+        raise Failure("element:text-sent-back-not-taken-at-the-value-it-denotes", f"{case}: the element held {v!r}, published {t!r}; a client sent {sent!r} (= {want!r}); the element now holds {got!r}")
+    return Info(nontrivial=abs(v - want) > 1e-12, labels=[fmt[-1], "inexact" if abs(v - want) > 1e-12 else "exact"])
+
+
+ELEMENT_FORMATS = ["%.6m", "%.3m", "%.5m", "%.8m", "%.9m", "%9.6m", "%.0f", "%d", "%.2f", "%5.1f", "%f", "%08.3f", "%+.1f", "%4d"]
+
+
+@st.composite
+def element_case(draw):
+    fmt = draw(st.sampled_from(ELEMENT_FORMATS))
+    k = draw(st.integers(-200000, 200000))
+    off = draw(st.sampled_from([0.0, 0.1, 0.3, 0.4, 0.45, -0.2, -0.45]))
+    res = refnum.resolution(fmt)
+    return {"fmt": fmt, "v": (k + off) * res, "pad": draw(st.sampled_from(["", "", " ", "  "]))}
+
+
 SUBCHECKS = {
+    "element": check_element,
     "grid": check_grid_block,
     "formats": check_render,
     "sexa": check_render,
@@ -304,6 +376,7 @@ def run(ctx):
     ctx.exhaustive["grammar"] = {"n_blocks": n, "n_strings_total": len(strings), "complete": True, "bound": f"length <= {8 if ctx.tier == 'thorough' else 7}, digits {DIGITS}, x {len(PARSE_FORMATS)} formats"}
     ctx.hyp("formats", st.fixed_dictionaries({"fmt": printf_format, "v": value_strategy()}), check_render, ctx.scale(1500, 40000))
     ctx.hyp("sexa", st.fixed_dictionaries({"fmt": sexa_format, "v": value_strategy().filter(lambda v: abs(v) <= 1e9)}), check_render, ctx.scale(1500, 40000))
+    ctx.hyp("element", element_case(), check_element, ctx.scale(1500, 30000))
     from harness import gen
 
     long_numbers = st.one_of(
